@@ -290,7 +290,7 @@ def cases(tier, seed, shard, nshards):
                             if n % nshards == shard:
                                 yield {"kind": "pair", "cls": cls.__name__, "p1": p1, "k1": k1, "p2": p2, "k2": k2}
     rng = random.Random(f"{seed}:C28:{shard}")
-    nrand = (12000 if tier == "quick" else 400000) // nshards
+    nrand = (12000 if tier == "quick" else 120000) // nshards
     for _ in range(nrand):
         cls = rng.choice(FAMILY)
         yield {"kind": "rand", "cls": cls.__name__, "spec": rand_spec(rng, cls, rng.randint(1, 4))}
